@@ -9,7 +9,9 @@ Values  : ('int', n) ('bool', b) ('str', s) ('chr', c) ('dec', m) ('tuple', [v])
 
 from vlib import hexs
 
-STRS = ["", "a", "abc", "Bob", "hello world", 'say "hi"', "tab\there", "back\\slash", "line\nbreak", "é", "x'y", "alice@example.com"]
+STRS = ["", "a", "abc", "Bob", "hello world", 'say "hi"', "tab\there", "back\\slash", "line\nbreak", "é", "x'y", "alice@example.com",
+        # combining marks, a joiner, a variation selector (Debug escapes them), and text that merely LOOKS like such an escape
+        "cafe\u0301", "\u0928\u092e\u0938\u094d\u0924\u0947", "a\u200db", "x\ufe0f", "cafe\\u{301}", "\\u{200d}"]
 INTS = [-3, -1, 0, 1, 2, 3, 4, 5, 7, 10, 42, 100]
 
 
